@@ -13,10 +13,13 @@
 #include "upipe-modules/upipe_dup.h"
 #include "upipe-modules/upipe_queue_sink.h"
 #include "upipe-modules/upipe_queue_source.h"
+#include "upipe-ts/upipe_ts_align.h"
 
 /* topologies: head -> P1 -> P2 -> {T0,T1}
  *   0: idem -> idem          1: skip -> setflowdef       2: dup (main output) -> idem
- *   3: idem -> [qsink | qsrc] -> idem  (queue between P1 and P2) */
+ *   3: idem -> [qsink | qsrc] -> idem  (queue between P1 and P2)
+ *   4: ts_align (a bin pipe: helper_bin_input / helper_bin_output around an inner pipe that each
+ *      set_flow_def replaces) -> idem */
 static int g_topo = 0;
 static int g_pool = 0;
 static int g_nreq = 2;
@@ -43,6 +46,7 @@ struct st {
     int p1_out;      /* 0 none, 1 next */
     int p2_out;      /* 0 none, 1 T0, 2 T1 */
     bool p2_released, p1_released;
+    bool p1_inner;   /* topology 4: the bin has an inner pipe */
     struct cbrec cb[64];
     int ncb;
     uint64_t hist_hash;
@@ -110,6 +114,7 @@ enum {
     OP_PROVIDE_T0, OP_PROVIDE_T1,
     OP_PUMP0, OP_PUMP1, OP_PUMP2,
     OP_REL_P2, OP_REL_P1,
+    OP_P1_FLOWDEF, /* topology 4: (re)creates the inner pipe of the bin */
     NOPS
 };
 
@@ -118,7 +123,7 @@ static void opstr(int op, char *b, size_t n)
     static const char *nm[] = {"register(uref_mgr)", "register(uclock)", "register(sink_latency)", "unregister(uref_mgr)", "unregister(uclock)",
                                "unregister(sink_latency)", "P1.set_output(P2)", "P1.set_output(NULL)", "P2.set_output(T0)", "P2.set_output(T1)",
                                "P2.set_output(NULL)", "T0.provide(first lodged)", "T1.provide(first lodged)", "dispatch(pump 0)", "dispatch(pump 1)",
-                               "dispatch(pump 2)", "release(P2)", "release(P1)"};
+                               "dispatch(pump 2)", "release(P2)", "release(P1)", "P1.set_flow_def"};
     snprintf(b, n, "%s", op >= 0 && op < NOPS ? nm[op] : "?");
 }
 
@@ -164,7 +169,12 @@ static void *init(void)
         st->p2 = upipe_void_alloc(upipe_idem_mgr_alloc(), px_probe(fx));
         ubase_assert(upipe_set_output(st->qsrc, st->p2));
         break;
+    case 4:
+        st->p1 = upipe_void_alloc(upipe_ts_align_mgr_alloc(), px_probe(fx));
+        st->p2 = upipe_void_alloc(upipe_idem_mgr_alloc(), px_probe(fx));
+        break;
     }
+    st->p1_inner = g_topo != 4;
     assert(st->p1 && st->p2);
     pxm_pause();
     return st;
@@ -187,6 +197,8 @@ static bool enabled_cb(void *vst, int op)
         return st->fx.sinks[0].nreqs > 0;
     if (op == OP_PROVIDE_T1)
         return st->fx.sinks[1].nreqs > 0;
+    if (op == OP_P1_FLOWDEF)
+        return g_topo == 4;
     if (op >= OP_PUMP0 && op <= OP_PUMP2) {
         if (g_topo != 3)
             return false;
@@ -220,7 +232,7 @@ static void check_routing(struct st *st, const char *when)
     for (int r = 0; r < g_nreq; r++) {
         int t = req_types[r];
         int want = -1; /* sink that must hold it, -1 none */
-        if (st->reg[r] && st->p1_out == 1 && st->p2_out != 0)
+        if (st->reg[r] && st->p1_inner && st->p1_out == 1 && st->p2_out != 0)
             want = st->p2_out - 1;
         for (int k = 0; k < 2; k++) {
             int n = lodged(st, k, t);
@@ -344,6 +356,11 @@ static int apply(void *vst, int op, bool check)
         do_provide(st, op - OP_PROVIDE_T0);
     } else if (op >= OP_PUMP0 && op <= OP_PUMP2) {
         dispatch(st, op - OP_PUMP0);
+    } else if (op == OP_P1_FLOWDEF) {
+        struct uref *f = px_flow(fx, "block.", 1);
+        ubase_assert(upipe_set_flow_def(st->p1, f));
+        uref_free(f);
+        st->p1_inner = true;
     } else if (op == OP_REL_P2) {
         /* the application lets go of P2; it lives on as long as something upstream points at it */
         upipe_release(st->p2);
